@@ -10,6 +10,7 @@ import (
 	"net/http/httptest"
 	"os"
 	"strings"
+	"sync/atomic"
 	"testing"
 	"time"
 
@@ -81,13 +82,20 @@ func runC13(rec *vkit.Recorder, c *c13Case) []vkit.Violation {
 	defer os.RemoveAll(dir)
 	var cur c13Attempt
 	var during func(kind string)
+	reqs := 0 // requests the target has received for the current attempt
 	rt := rtFunc(func(r *http.Request) (*http.Response, error) {
-		if cur.During != "" && during != nil {
+		reqs++
+		if cur.During != "" && during != nil && reqs == 1 {
 			during(cur.During)
 		}
 		pl := c13Payload(cur.Lines)
 		h := http.Header{"Content-Type": []string{"text/plain"}}
-		switch cur.Kind {
+		kind := cur.Kind
+		if reqs > 1 {
+			// the scripted failure hits one request; a target asked again within the same scrape is healthy again
+			kind = "ok"
+		}
+		switch kind {
 		case "transport":
 			return nil, fmt.Errorf("dial tcp: connection refused (scripted)")
 		case "status":
@@ -113,7 +121,7 @@ func runC13(rec *vkit.Recorder, c *c13Case) []vkit.Violation {
 				cuts = []int{cur.Cut}
 			}
 			return &http.Response{StatusCode: 200, Status: "200 OK", Header: h, Request: r,
-				Body: &chunkReader{data: pl, cuts: cuts, fail: off, err: bodyErr(cur.Kind)}}, nil
+				Body: &chunkReader{data: pl, cuts: cuts, fail: off, err: bodyErr(kind)}}, nil
 		case "gzip-truncated":
 			z := gz(pl)
 			off := cur.Offset
@@ -154,7 +162,9 @@ func runC13(rec *vkit.Recorder, c *c13Case) []vkit.Violation {
 		}
 	}
 	handled := make(chan struct{}, 16)
+	var startedN int32
 	srv := httptest.NewServer(http.HandlerFunc(func(w http.ResponseWriter, r *http.Request) {
+		atomic.AddInt32(&startedN, 1)
 		defer func() { handled <- struct{}{} }()
 		n.proxy.ServeHTTP(w, r)
 	}))
@@ -217,6 +227,8 @@ func runC13(rec *vkit.Recorder, c *c13Case) []vkit.Violation {
 		for len(handled) > 0 {
 			<-handled
 		}
+		reqs = 0
+		startedBefore := atomic.LoadInt32(&startedN)
 		doer := cli
 		if a.GiveUp && a.Kind == "timeout" {
 			doer = impatient
@@ -233,8 +245,14 @@ func runC13(rec *vkit.Recorder, c *c13Case) []vkit.Violation {
 		// the status is judged once the proxy has finished handling the request (it may outlive an impatient client)
 		select {
 		case <-handled:
-		case <-time.After(10 * time.Second):
-			add("C13/harness", "attempt %d (%+v): the proxy did not finish handling the request within 10s", i, a)
+		case <-time.After(30 * time.Second):
+			if atomic.LoadInt32(&startedN) == startedBefore {
+				// the impatient client hung up before the server had even read the request (busy machine): the
+				// proxy never saw this attempt, there is nothing to judge
+				rec.Class("impatient-client-gone-before-the-request-was-read")
+				continue
+			}
+			add("C13/proxy-handler-never-returns", "attempt %d (%+v): the proxy was still handling the request 30s after Prometheus had its answer or hung up (scrape_timeout of the job is 60ms / 10s)", i, a)
 		}
 		pl := c13Payload(a.Lines)
 		failed := a.Kind != "ok"
@@ -247,11 +265,15 @@ func runC13(rec *vkit.Recorder, c *c13Case) []vkit.Violation {
 				key += "/at-offset-0"
 			}
 		}
-		if a.During == "setStop" || a.During == "clearStop" {
-			// the stop reason changed while the scrape was in flight: either outcome is acceptable, but
-			// what Prometheus sees and what the status says must agree, and a 200 carries the whole body
+		if a.During == "setStop" || a.During == "clearStop" || reqs > 1 {
+			// the stop reason changed while the scrape was in flight, or the proxy asked the target again after
+			// the failure (the second answer is healthy): either outcome is acceptable, but what Prometheus sees
+			// and what the status says must agree, and a 200 carries the whole body and nothing else
 			after := status(hash)
 			key := "during-" + a.During
+			if reqs > 1 {
+				key = "target-asked-again/" + a.Kind
+			}
 			if !clientSawFailure && !bytes.Equal(body, pl) {
 				add("C13/complete-200-with-wrong-content/"+key, "attempt %d (%+v): status 200 and a clean body of %d bytes, payload has %d", i, a, len(body), len(pl))
 			}
@@ -261,7 +283,7 @@ func runC13(rec *vkit.Recorder, c *c13Case) []vkit.Violation {
 				if !clientSawFailure && a.Kind == "ok" && !up || clientSawFailure && !down {
 					add("C13/health-disagrees-with-response/"+key, "attempt %d (%+v): client saw failure=%v but status says health %q lastError %q", i, a, clientSawFailure, after.Health, after.LastError)
 				}
-				if after.ScrapeTimes != before.ScrapeTimes+1 {
+				if after.ScrapeTimes != before.ScrapeTimes+1 && reqs <= 1 {
 					add("C13/counter/"+key, "attempt %d: scrape counter went from %d to %d", i, before.ScrapeTimes, after.ScrapeTimes)
 				}
 			}
